@@ -1,4 +1,5 @@
 import CasbinVerif.Proofs.C15Frame
+import CasbinVerif.Proofs.Updatable
 /-
   C15 helper lemmas, part 2: the `*WithoutNotify` functions never read the watcher: running them
   with another watcher gives the same result and the same state up to the watcher field.
@@ -76,13 +77,25 @@ theorem setW_removePoliciesWN (e : Enf) (w : Option WatcherKind) (sec pt : Strin
 
 theorem setW_updatePolicyWN (e : Enf) (w : Option WatcherKind) (sec pt : String) (old new : Rule) :
     (e.setW w).updatePolicyWN sec pt old new = onFst (·.setW w) (e.updatePolicyWN sec pt old new) := by
-  unfold Enf.updatePolicyWN
-  setw_tac
+  have hb : (e.setW w).updatePolicyBody sec pt old new = onFst (·.setW w) (e.updatePolicyBody sec pt old new) := by
+    unfold Enf.updatePolicyBody
+    setw_tac
+  rw [updatePolicyWN_eq, updatePolicyWN_eq, setW_getStore, hb]
+  split
+  · rfl
+  split <;> rfl
 
 theorem setW_updatePoliciesWN (e : Enf) (w : Option WatcherKind) (sec pt : String) (olds news : List Rule) :
     (e.setW w).updatePoliciesWN sec pt olds news = onFst (·.setW w) (e.updatePoliciesWN sec pt olds news) := by
-  unfold Enf.updatePoliciesWN
-  setw_tac
+  have hb : (e.setW w).updatePoliciesBody sec pt olds news = onFst (·.setW w) (e.updatePoliciesBody sec pt olds news) := by
+    unfold Enf.updatePoliciesBody
+    setw_tac
+  rw [updatePoliciesWN_eq, updatePoliciesWN_eq, setW_getStore, hb]
+  split
+  · rfl
+  split
+  · rfl
+  split <;> rfl
 
 theorem setW_removeFilteredWN (e : Enf) (w : Option WatcherKind) (sec pt : String) (fi : Nat) (vals : List String) :
     (e.setW w).removeFilteredWN sec pt fi vals = (e.removeFilteredWN sec pt fi vals).map (onFst (·.setW w)) := by
